@@ -8,6 +8,7 @@ mod c19;
 mod ser;
 mod lay;
 mod kan;
+mod kanseq; // [seq]
 mod kall;
 mod c01;
 mod c02;
@@ -56,7 +57,12 @@ fn main() {
                 "C15" => c15::gen(tier, seed),
                 "C20" => c20::gen(tier, seed), // C20
                 "C16" => c16::gen(tier, seed),
-                "C12" => c12::gen(tier, seed),
+                "C12" => {
+                    // [seq] plus kanata-level cases with sequence mode (composed model)
+                    let mut v = c12::gen(tier, seed);
+                    v.extend(kanseq::gen(tier, seed));
+                    v
+                }
                 "C10" => c10::gen(tier, seed),
                 "C13" => c13::gen(tier, seed),
                 "C19" => c19::gen(tier, seed),
@@ -97,6 +103,7 @@ fn main() {
                     "C15" => c15::eval(&l2),
                     "C20" => c20::eval(&l2), // C20
                     "C16" => c16::eval(&l2),
+                    "C12" if l2.starts_with("KAN ") => kan::eval(&l2), // [seq]
                     "C12" => c12::eval(&l2),
                     "C10" => c10::eval(&l2),
                     "C07" => c07::eval(&l2),
@@ -140,6 +147,7 @@ fn main() {
                 let res = std::panic::catch_unwind(move || match p.as_str() {
                     "C14" if l2.starts_with("KOT ") => c14::expand_kot(&l2), // C14v2
                     "C08" => c08::expand(&l2),
+                    "C12" if l2.starts_with("KAN ") => kan::expand(&l2), // [seq]
                     "C10" => {
                         if l2.starts_with("KAN ") {
                             kan::expand(&l2)
